@@ -160,6 +160,40 @@ class _Src:
             self.emit("\\\n")       # consumed by the lexer: no text node
 
 
+def cont_text(opts, i, text):
+    """a control-line text, continued after its keyword with backslash-newline when the options say so"""
+    bs = opts.get("bs")
+    if bs and i < len(bs) and bs[i] is not None and " " in text:
+        kw, rest = text.split(" ", 1)
+        return kw + " \\\n" + bs[i] + rest
+    return text
+
+
+def ctl_lines(n):
+    """the control lines of a structure that are not end lines: [(keyword, text, body)]"""
+    k = n[0]
+    o = n[-1]
+    if k == "if":
+        lines = [("if" if j == 0 else "elif", ("if " if j == 0 else "elif ") + cond_src(c) + ":", b)
+                 for j, (c, b) in enumerate(n[1])]
+        if n[2] is not None:
+            lines.append(("else", "else:", n[2]))
+    elif k == "for":
+        cmt = (" # " + o["cmt"]) if o.get("cmt") else ""
+        lines = [("for", "for v%d in %s:%s" % (n[1], iter_src(n[2]), cmt), n[3])]
+        if n[4] is not None:
+            lines.append(("else", "else:", n[4]))
+    elif k == "while":
+        lines = [("while", "while below(%d):" % n[1], n[2])]
+    elif k == "try":
+        lines = [("try", "try:", n[1])] + [("except", "except:" if e is None else "except %s:" % e, b) for e, b in n[2]]
+    elif k == "with":
+        lines = [("with", "with cm('%s') as v%d:" % (n[1], n[2]), n[3])]
+    else:
+        raise ValueError(n)
+    return [(kw, text if kw == "for" else cont_text(o, i, text), b) for i, (kw, text, b) in enumerate(lines)]
+
+
 def _ctl(s, opts, i, text):
     mg = opts["mg"][i] if i < len(opts["mg"]) else ["", " "]
     s.fresh_line()
@@ -196,47 +230,13 @@ def _node_src(s, n):
         s.emit("<%" + py_block_text(n[1], n[2]) + "%>")
     elif k == "modcode":
         s.emit("<%! import os %>")
-    elif k == "if":
-        clauses, orelse, o = n[1], n[2], n[3]
-        i = 0
-        for j, (c, body) in enumerate(clauses):
-            _ctl(s, o, i, ("if " if j == 0 else "elif ") + cond_src(c) + ":")
-            i += 1
+    elif k in ("if", "for", "while", "try", "with"):
+        o = n[-1]
+        lines = ctl_lines(n)
+        for i, (kw, text, body) in enumerate(lines):
+            _ctl(s, o, i, text)
             _body_src(s, body)
-        if orelse is not None:
-            _ctl(s, o, i, "else:")
-            i += 1
-            _body_src(s, orelse)
-        _ctl(s, o, i, "endif")
-    elif k == "for":
-        o = n[5]
-        cmt = (" # " + o["cmt"]) if o.get("cmt") else ""
-        _ctl(s, o, 0, "for v%d in %s:%s" % (n[1], iter_src(n[2]), cmt))
-        _body_src(s, n[3])
-        i = 1
-        if n[4] is not None:
-            _ctl(s, o, 1, "else:")
-            i = 2
-            _body_src(s, n[4])
-        _ctl(s, o, i, "endfor")
-    elif k == "while":
-        _ctl(s, n[3], 0, "while below(%d):" % n[1])
-        _body_src(s, n[2])
-        _ctl(s, n[3], 1, "endwhile")
-    elif k == "try":
-        o = n[3]
-        _ctl(s, o, 0, "try:")
-        _body_src(s, n[1])
-        i = 1
-        for exc, body in n[2]:
-            _ctl(s, o, i, "except:" if exc is None else "except %s:" % exc)
-            i += 1
-            _body_src(s, body)
-        _ctl(s, o, i, "endtry")
-    elif k == "with":
-        _ctl(s, n[4], 0, "with cm('%s') as v%d:" % (n[1], n[2]))
-        _body_src(s, n[3])
-        _ctl(s, n[4], 1, "endwith")
+        _ctl(s, o, len(lines), "end" + k)
     elif k == "def":
         s.emit('<%%def name="d%d(%s)"%s>' % (n[1], ", ".join("v%d" % v for v in n[2]), _flags_attrs(n[3])))
         _body_src(s, n[4])
@@ -802,23 +802,7 @@ def _ct(body, top_assigns):
                        else "q %d 0" % (1 if lr else 0))
         elif k in ("if", "for", "while", "try", "with"):
             refs = header_loop_refs(n)
-            if k == "if":
-                lines = [("if" if j == 0 else "elif", ("if " if j == 0 else "elif ") + cond_src(c) + ":", b)
-                         for j, (c, b) in enumerate(n[1])]
-                if n[2] is not None:
-                    lines.append(("else", "else:", n[2]))
-            elif k == "for":
-                cmt = (" # " + n[5]["cmt"]) if n[5].get("cmt") else ""
-                lines = [("for", "for v%d in %s:%s" % (n[1], iter_src(n[2]), cmt), n[3])]
-                if n[4] is not None:
-                    lines.append(("else", "else:", n[4]))
-            elif k == "while":
-                lines = [("while", "while below(%d):" % n[1], n[2])]
-            elif k == "try":
-                lines = [("try", "try:", n[1])] + [("except", "except:" if e is None else "except %s:" % e, b)
-                                                   for e, b in n[2]]
-            else:
-                lines = [("with", "with cm('%s') as v%d:" % (n[1], n[2]), n[3])]
+            lines = ctl_lines(n)
             parts = None
             if k == "for":
                 parts = ("v%d" % n[1], iter_src(n[2]))
@@ -864,16 +848,16 @@ class Knobs:
         self.max_depth = 5
         self.max_body = 4
         self.budget = 26
-        self.constructs = {"text": 6, "expr": 6, "comment": 1.5, "py": 1.6, "if": 3, "for": 3.2, "while": 1, "try": 2,
+        self.constructs = {"text": 6, "expr": 6, "comment": 1.5, "modcode": 0.3, "py": 1.6, "if": 3, "for": 3.2, "while": 1, "try": 2,
                            "with": 0.8, "def": 1.4, "call": 1.2, "block": 0.5, "ret": 0.35, "brk": 0.6, "cont": 0.4}
         self.p_boom = 0.3
         self.p_empty_body = 0.12
         self.p_comment_body = 0.08
         self.p_loop_use = 0.65
+        self.p_continued = 0.12       # a control line continued after its keyword with backslash-newline
         self.enable_loop = True
         self.multi_except = True      # several `% except` clauses (repaired in /repo by 1cb10d7)
         # shapes that hit recorded findings: off in the main streams, on in the `quirks` stream
-        self.silent_suite = False
         self.ret_in_buffered = False
         self.loop_only_in_closure = False
         self.loop_only_in_call_expr = False
@@ -941,7 +925,9 @@ class Gen:
 
     def opts(self, nlines):
         r = self.rng
-        return {"mg": [[r.choice(PRE_MARGINS), r.choice(POST_MARGINS)] for _ in range(nlines)], "cmt": None}
+        return {"mg": [[r.choice(PRE_MARGINS), r.choice(POST_MARGINS)] for _ in range(nlines)], "cmt": None,
+                "bs": [(r.choice(["", "    ", "\t", "  "]) if r.random() < self.k.p_continued else None)
+                       for _ in range(nlines)]}
 
     def loop_attr(self, sc):
         r = self.rng
@@ -1018,10 +1004,6 @@ class Gen:
             node = self.node(sc)
             if node is not None:
                 out.append(node)
-        real = [c for c in out if c[0] != "comment"]
-        if sc.depth > 0 and real and all(c[0] == "def" for c in real) and not self.k.silent_suite:
-            # a control-line suite made of defs only would be empty Python (recorded finding): keep a statement
-            out.append(["text", self.text()])
         return out
 
     def comment(self):
@@ -1063,6 +1045,8 @@ class Gen:
             return ["expr", self.expr(sc)]
         if k == "comment":
             return self.comment()
+        if k == "modcode":
+            return ["modcode"]
         if k in ("ret", "brk", "cont"):
             margin = None if r.random() < 0.5 else r.choice(BLOCK_MARGINS)
             return ["py", [[k]], margin]
